@@ -38,6 +38,9 @@ type memCase struct {
 	Top    bool       `json:"top,omitempty"` // addresses shifted to just below 2^64
 	MaxA   int        `json:"maxa"`          // reads cover addresses 0..MaxA
 	MaxW   int        `json:"maxw"`
+	// ExtraW: further read widths above MaxW (a read spanning the whole window
+	// crosses several holes and blocks of both layers at once)
+	ExtraW []int `json:"extraw,omitempty"`
 	// NoMidReads: no reads between the stores of the history (by default every address is
 	// read after each store; read/write interleavings are part of the history).
 	NoMidReads bool `json:"no_mid_reads,omitempty"`
@@ -150,8 +153,10 @@ func runsString(addrs []int) string {
 
 // surface compares every Load / Missing / Blocks of mem with the model.
 func surface(site string, mem memory.Memory, mdl memModel, off model.Addr, c memCase, lo int) *eng.Fail {
+	ws := seq(1, c.MaxW)
+	ws = append(ws, c.ExtraW...)
 	for a := lo; a <= c.MaxA; a++ {
-		for w := 1; w <= c.MaxW; w++ {
+		for _, w := range ws {
 			desc := fmt.Sprintf("%s.Load(%d,%d)", site, a, w)
 			var ex expr.Expr
 			var ok bool
@@ -275,7 +280,7 @@ func blocksOverlap(bs []memBlock) bool {
 func memRun(c memCase) (*eng.Fail, int) {
 	var off model.Addr
 	if c.Top {
-		off = model.Addr(0) - model.Addr(c.MaxA+c.MaxW+8)
+		off = model.Addr(0) - model.Addr(c.MaxA+c.MaxW+16)
 	}
 	mdl := memModel{}
 	var mem memory.Memory
@@ -376,6 +381,11 @@ func memRun(c memCase) (*eng.Fail, int) {
 		dig string
 	}
 	var rets []returned
+	type returnedBlocks struct {
+		m   interval.Map[model.Addr]
+		dig string
+	}
+	var midBlocks []returnedBlocks
 	for i, op := range c.Ops {
 		v := opValue(0, i, op)
 		if op.Kind == "samecopy" {
@@ -422,8 +432,15 @@ func memRun(c memCase) (*eng.Fail, int) {
 					if ok && ex != nil {
 						rets = append(rets, returned{ex, ir.Show(ex)})
 					}
+					eng.Catch(func() { mem.Missing(off+model.Addr(a), expr.Width(w)) })
 				}
 			}
+			// ... and the block list (whatever it caches must not survive the next store)
+			eng.Catch(func() {
+				bm := mem.Blocks()
+				d, _ := ivString(bm, off)
+				midBlocks = append(midBlocks, returnedBlocks{bm, d})
+			})
 		}
 	}
 	if f := surface(site, mem, mdl, off, c, lo); f != nil {
@@ -432,6 +449,11 @@ func memRun(c memCase) (*eng.Fail, int) {
 	for _, h := range hs {
 		if ir.Show(h.e) != h.dig {
 			return &eng.Fail{Sig: site + " alters-handed-value", What: fmt.Sprintf("%s was %s and is now %s", h.what, h.dig, ir.Show(h.e)), Case: c}, trans
+		}
+	}
+	for _, b := range midBlocks {
+		if d, _ := ivString(b.m, off); d != b.dig {
+			return &eng.Fail{Sig: site + " alters-returned-blocks", What: fmt.Sprintf("a block list returned by Blocks() mid-history was %s and is now %s", b.dig, d), Case: c}, trans
 		}
 	}
 	for _, r := range rets {
@@ -536,7 +558,7 @@ func memDo(r *eng.Run, c memCase) {
 func init() {
 	checks["C14"] = eng.Check{
 		Hist:        true,
-		Rule:        "Sparse memory: every history (no state merging) of <=2 stores over the full alphabet (addr 0..5 x width 1..4 x value kinds {exact constant, symbolic register, value narrower than the write, value wider than the write, wide symbolic}) and of 3 stores (quick: addr 0..4, widths 1..4, kinds const/sym; thorough: full alphabet; thorough also 4 stores over addr 0..3, widths 1..3, const/sym; plus histories of 2..3 stores ending with a store of exactly the bytes the memory already holds there), on a fresh real Sparse each; after each history every Load(a,w), Missing(a,w) for a in 0..8, w in 1..4 and Blocks() compared with a byte map (values under 3 valuations); digests of all values handed in / returned mid-history re-checked at the end. Histories of 2 stores are run with three read/write interleavings (reads after every store, none between the stores, none before the end); wide loads (every width 1..72) over three layouts of many blocks. Repeated with all addresses shifted to just below 2^64. Non-trivial = history of >=2 stores.",
+		Rule:        "Sparse memory: every history (no state merging) of <=2 stores over the full alphabet (addr 0..5 x width 1..4 x value kinds {exact constant, symbolic register, value narrower than the write, value wider than the write, wide symbolic}) and of 3 stores (quick: addr 0..4, widths 1..4, kinds const/sym; thorough: full alphabet; thorough also 4 stores over addr 0..3, widths 1..3, const/sym; plus histories of 2..3 stores ending with a store of exactly the bytes the memory already holds there), on a fresh real Sparse each; after each history every Load(a,w), Missing(a,w) for a in 0..8, w in 1..4 and Blocks() compared with a byte map (values under 3 valuations); digests of all values handed in / returned mid-history re-checked at the end. Between the stores of a history the memory is read as well (Load and Missing at the narrowest and widest width from every address, Blocks()), so that anything cached by a read has to survive the next store; histories of 2 stores are additionally run with no reads between the stores and with no reads before the end; wide loads (every width 1..72) over three layouts of many blocks. Repeated with all addresses shifted to just below 2^64. Non-trivial = history of >=2 stores.",
 		Assumptions: []string{"address ranges do not wrap around 2^64", "write widths 1..4 (wider writes are covered by a few hand-picked wide cases only)"},
 		Run: func(r *eng.Run) {
 			full := memAlpha(seq(0, 5), seq(1, 4), []string{"const", "sym", "narrow", "wide", "symwide"})
